@@ -191,3 +191,20 @@ PROPS["C05"] = {
         Leg("fuzz-message", "c05", "", engine="native-fuzz", fuzz="FuzzMessage", fuzztime=60, tiers=("thorough",)),
     ],
 }
+
+PROPS["C04"] = {
+    "title": "MSM4/MSM7 messages decode to exactly the encoded header and cell data",
+    "level": "exploration",
+    "technique": "property-based testing (rapid): independent encoder -> decoder round trip over mask shapes x field values x padding, plus padding-invariance metamorphic relation",
+    "level_text": ("Generated-input exploration by round trip: messages are drawn by mask shape (empty, 1x1, 1xk, kx1, 64x1, 1x32, 8x8, sparse, mixed rows, random; "
+                   "never more than 64 cells), field values aim at 0 / max / min ('invalid') / -1 and all-zero cells, 0..N zero padding bytes up to the 1023-byte "
+                   "limit; the harness's encoder shares no code with the decoders. Every exported field of header, satellite and signal cells must equal the drawn "
+                   "value, through the typed decoders and through handler.GetMessage+Analyse, for the drawn padding and two further paddings."),
+    "rule": ("Cases: (MSM message field set, shape, log level); each is decoded with its drawn padding, with no padding and with one further padding 3..12. "
+             "Non-trivial = at least one signal cell and (padding >= 3 bytes or an all-zero last cell or two satellites with different cell counts); distinct = distinct case hash."),
+    "assumptions": ["harness MSM encoder follows the documented layout (169-bit header, cell mask, field-major satellite and signal data)", "Go toolchain, rapid v1.3.0"],
+    "min_evals": {"quick": 5000, "thorough": 300000},
+    "legs": [
+        Leg("message", "c04", "^TestMessage$", checks=(4000, 40000), shards=(2, 16), tests=["message"]),
+    ],
+}
